@@ -10,14 +10,19 @@ import (
 )
 
 type gobj struct {
-	kind   byte // 'f' file, 'b' buffer, 's' samples
+	kind   byte // 'f' file, 'b' buffer, 's' samples, 'k' decrypt info, 'p' protect data
 	alias  int  // -1: payload owned by the goroutine; k: payload inside shared input k
-	origin int  // input the content derives from
+	origin int  // input the content derives from (-1: none, e.g. Info text)
+	role   string
+	codec  string
 	enc    bool // file content is encrypted
-	clear  bool // file is a clear fragmented single-track file (encryptable)
-	video  bool
 	annexb bool // samples were converted to byte stream format
-	frag   bool // file has media segments
+}
+
+func (g *gobj) video() bool   { return g.codec == "avc" || g.codec == "hevc" }
+func (g *gobj) hasInit() bool { return g.role == "full" || g.role == "init" }
+func (g *gobj) hasMedia() bool {
+	return g.role == "full" || g.role == "media"
 }
 
 type genMode int
@@ -28,105 +33,204 @@ const (
 	modeUnsafe                // starts with SR decode of a given shared input followed by an in-place op on it
 )
 
-// genProgram returns a program and, for modeUnsafe/modeAny, the first in-place op applied to an aliasing object.
+type generator struct {
+	rng         *hx.Rng
+	c           *corpus
+	mode        genMode
+	prog        []op
+	objs        map[int]*gobj
+	next        int
+	firstUnsafe string
+	mutated     []int
+}
+
+func (g *generator) markMut(k int) {
+	for _, x := range g.mutated {
+		if x == k {
+			return
+		}
+	}
+	g.mutated = append(g.mutated, k)
+}
+
+func (g *generator) newID() int {
+	// mostly fresh ids, sometimes overwrite an existing object
+	if g.next > 0 && g.rng.Intn(10) == 0 {
+		return g.rng.Intn(g.next)
+	}
+	g.next++
+	return g.next - 1
+}
+
+func (g *generator) fresh() int {
+	g.next++
+	return g.next - 1
+}
+
+func (g *generator) emit(o op) { g.prog = append(g.prog, o) }
+
+// decode of shared input k into object d.
+func (g *generator) decode(k int, sr bool, d int) int {
+	code, alias := byte('D'), -1
+	if sr {
+		code, alias = 'R', k
+	}
+	g.emit(op{code: code, src: fmt.Sprintf("i%d", k), d: d})
+	in := g.c.info[k]
+	g.objs[d] = &gobj{kind: 'f', alias: alias, origin: k, role: in.role, codec: in.codec, enc: in.enc}
+	return d
+}
+
+func (g *generator) inplaceOK(o *gobj) bool { return g.mode != modeSafe || o.alias < 0 }
+
+func (g *generator) noteInplace(o *gobj, code byte) {
+	if o.alias >= 0 {
+		g.markMut(o.alias)
+		if g.firstUnsafe == "" {
+			g.firstUnsafe = opName(code)
+		}
+	}
+}
+
+func (g *generator) pickBytes(ok func(in inputInfo) bool) int {
+	return g.c.pick(g.rng, func(i int, in inputInfo) bool { return i < g.c.nbytes && ok(in) })
+}
+
+// decryptPipeline: init (Reader / SliceReader, shared) -> DecryptInit -> media -> DecryptSegment, or the same with a
+// DecryptInfo shared between the goroutines.
+func (g *generator) decryptPipeline() {
+	ini := g.pickBytes(func(in inputInfo) bool { return in.role == "init" && in.enc })
+	codec := g.c.info[ini].codec
+	med := g.pickBytes(func(in inputInfo) bool { return in.role == "media" && in.enc && in.codec == codec })
+	var diSrc string
+	if g.rng.Intn(4) == 0 {
+		k := g.c.pick(g.rng, func(i int, in inputInfo) bool { return in.role == "di" && in.codec == codec })
+		diSrc = fmt.Sprintf("i%d", k)
+	} else {
+		f := g.decode(ini, g.rng.Bool(), g.fresh())
+		d := g.fresh()
+		g.emit(op{code: 'K', o: f, d: d})
+		g.objs[d] = &gobj{kind: 'k', alias: g.objs[f].alias, origin: ini, codec: codec}
+		diSrc = fmt.Sprintf("o%d", d)
+	}
+	sr := g.rng.Bool()
+	if g.mode == modeSafe {
+		sr = false
+	}
+	m := g.decode(med, sr, g.fresh())
+	if sr && g.mode == modeSafe {
+		return
+	}
+	g.noteInplace(g.objs[m], 'Y')
+	g.emit(op{code: 'Y', o: m, src: diSrc})
+	g.objs[m].enc = false
+}
+
+// encryptPipeline: clear init -> InitProtect -> clear media -> EncryptFragment.
+func (g *generator) encryptPipeline() {
+	ini := g.pickBytes(func(in inputInfo) bool { return in.role == "init" && !in.enc })
+	codec := g.c.info[ini].codec
+	med := g.pickBytes(func(in inputInfo) bool { return in.role == "media" && !in.enc && in.codec == codec })
+	f := g.decode(ini, g.rng.Bool(), g.fresh())
+	d := g.fresh()
+	code := byte('P')
+	if g.rng.Bool() {
+		code = 'p'
+	}
+	g.emit(op{code: code, o: f, d: d})
+	g.objs[f].enc = true
+	g.objs[d] = &gobj{kind: 'p', alias: g.objs[f].alias, origin: ini, codec: codec}
+	sr := g.rng.Bool()
+	if g.mode == modeSafe {
+		sr = false
+	}
+	m := g.decode(med, sr, g.fresh())
+	g.noteInplace(g.objs[m], 'F')
+	g.emit(op{code: 'F', o: m, d: d})
+	g.objs[m].enc = true
+}
+
+// genProgram returns a program, the first in-place op applied to an object aliasing a shared input ("" if none)
+// and the shared inputs such ops are applied to.
 func genProgram(rng *hx.Rng, c *corpus, mode genMode, forcedInput int, forcedMut byte, nops int) ([]op, string, []int) {
-	var mutated []int
-	markMut := func(k int) {
-		for _, x := range mutated {
-			if x == k {
-				return
-			}
-		}
-		mutated = append(mutated, k)
-	}
-	var prog []op
-	objs := map[int]*gobj{}
-	next := 0
-	firstUnsafe := ""
-	newID := func() int {
-		// mostly fresh ids, sometimes overwrite an existing object
-		if len(objs) > 0 && rng.Intn(8) == 0 {
-			k := rng.Intn(next)
-			return k
-		}
-		next++
-		return next - 1
-	}
-	decode := func(k int, sr bool) {
-		d := newID()
-		code := byte('D')
-		alias := -1
-		if sr {
-			code = 'R'
-			alias = k
-		}
-		prog = append(prog, op{code: code, src: fmt.Sprintf("i%d", k), d: d})
-		info := c.info[k]
-		objs[d] = &gobj{kind: 'f', alias: alias, origin: k, enc: c.isEnc(k), clear: c.isClear(k),
-			video: info.codec == "avc" || info.codec == "hevc",
-			frag:  c.isEnc(k) || c.isClear(k) || info.kind == "encfile" || info.kind == "other"}
-	}
-	pickInput := func() int {
+	g := &generator{rng: rng, c: c, mode: mode, objs: map[int]*gobj{}}
+	anyInput := func() int {
 		// favour the inputs that support the whole op set
-		if rng.Intn(5) > 0 {
-			return rng.Intn(11)
+		if rng.Intn(6) > 0 {
+			return g.pickBytes(func(in inputInfo) bool { return in.role != "other" })
 		}
-		return rng.Intn(len(c.info))
+		return rng.Intn(c.nbytes)
 	}
 	if mode == modeUnsafe {
-		markMut(forcedInput)
-		decode(forcedInput, true)
+		g.markMut(forcedInput)
+		g.decode(forcedInput, true, g.fresh())
+		o := g.objs[0]
 		switch forcedMut {
 		case 'X', 'C', 'c':
-			prog = append(prog, op{code: forcedMut, o: 0})
-			firstUnsafe = opName(forcedMut)
-			if forcedMut == 'X' {
-				objs[0].enc, objs[0].clear = false, true
-			} else {
-				objs[0].enc, objs[0].clear = true, false
-			}
+			g.emit(op{code: forcedMut, o: 0})
+			g.firstUnsafe = opName(forcedMut)
+			o.enc = forcedMut != 'X'
 		case 'B':
-			d := newID()
-			prog = append(prog, op{code: 'G', o: 0, d: d}, op{code: 'B', o: d})
-			objs[d] = &gobj{kind: 's', alias: forcedInput, origin: forcedInput, video: true, annexb: true}
-			firstUnsafe = opName('B')
-		case 'N':
-			d := newID()
-			prog = append(prog, op{code: 'G', o: 0, d: d}, op{code: 'B', o: d}, op{code: 'N', o: d})
-			objs[d] = &gobj{kind: 's', alias: forcedInput, origin: forcedInput, video: true}
-			firstUnsafe = opName('B')
+			d := g.fresh()
+			g.emit(op{code: 'G', o: 0, d: d})
+			g.emit(op{code: 'B', o: d})
+			g.objs[d] = &gobj{kind: 's', alias: forcedInput, origin: forcedInput, codec: o.codec, annexb: true}
+			g.firstUnsafe = opName('B')
+		case 'Y':
+			// media decoded through a SliceReader from the shared input, decrypt info from a private init
+			codec := o.codec
+			ini := g.pickBytes(func(in inputInfo) bool { return in.role == "init" && in.enc && in.codec == codec })
+			f := g.decode(ini, false, g.fresh())
+			d := g.fresh()
+			g.emit(op{code: 'K', o: f, d: d})
+			g.objs[d] = &gobj{kind: 'k', alias: -1, origin: ini, codec: codec}
+			g.emit(op{code: 'Y', o: 0, src: fmt.Sprintf("o%d", d)})
+			g.firstUnsafe = opName('Y')
+			o.enc = false
+		case 'F':
+			codec := o.codec
+			ini := g.pickBytes(func(in inputInfo) bool { return in.role == "init" && !in.enc && in.codec == codec })
+			f := g.decode(ini, false, g.fresh())
+			d := g.fresh()
+			g.emit(op{code: 'P', o: f, d: d})
+			g.objs[d] = &gobj{kind: 'p', alias: -1, origin: ini, codec: codec}
+			g.emit(op{code: 'F', o: 0, d: d})
+			g.firstUnsafe = opName('F')
+			o.enc = true
 		}
 	} else {
-		decode(pickInput(), rng.Bool())
+		switch rng.Intn(10) {
+		case 0, 1, 2, 3:
+			g.decryptPipeline()
+		case 4:
+			g.encryptPipeline()
+		default:
+			g.decode(anyInput(), rng.Bool(), g.fresh())
+		}
 	}
-	for len(prog) < nops {
-		// candidate actions
+	guard := 0
+	for len(g.prog) < nops && guard < 200 {
+		guard++
 		var ids []int
-		for k := 0; k < next; k++ {
-			if objs[k] != nil {
+		for k := 0; k < g.next; k++ {
+			if g.objs[k] != nil {
 				ids = append(ids, k)
 			}
 		}
 		k := ids[rng.Intn(len(ids))]
-		o := objs[k]
-		inplaceOK := func() bool { return mode != modeSafe || o.alias < 0 }
-		noteUnsafe := func(code byte) {
-			if o.alias >= 0 {
-				markMut(o.alias)
-				if firstUnsafe == "" {
-					firstUnsafe = opName(code)
-				}
-			}
-		}
+		o := g.objs[k]
 		switch o.kind {
 		case 'f':
-			switch rng.Intn(9) {
+			switch rng.Intn(10) {
 			case 0:
-				d := newID()
-				prog = append(prog, op{code: 'I', o: k, d: d})
-				objs[d] = &gobj{kind: 'b', alias: -1, origin: -1}
+				d := g.newID()
+				if d == k {
+					continue
+				}
+				g.emit(op{code: 'I', o: k, d: d})
+				g.objs[d] = &gobj{kind: 'b', alias: -1, origin: -1}
 			case 1, 2:
-				d := newID()
+				d := g.newID()
 				if d == k {
 					continue
 				}
@@ -134,79 +238,102 @@ func genProgram(rng *hx.Rng, c *corpus, mode genMode, forcedInput int, forcedMut
 				if rng.Bool() {
 					code = 'W'
 				}
-				prog = append(prog, op{code: code, o: k, d: d})
-				g := *o
-				g.kind, g.alias = 'b', -1
-				objs[d] = &g
+				g.emit(op{code: code, o: k, d: d})
+				b := *o
+				b.kind, b.alias = 'b', -1
+				g.objs[d] = &b
 			case 3, 4:
-				if !o.frag {
+				if !o.hasMedia() {
 					continue
 				}
-				d := newID()
+				d := g.newID()
 				if d == k {
 					continue
 				}
-				prog = append(prog, op{code: 'G', o: k, d: d})
-				objs[d] = &gobj{kind: 's', alias: o.alias, origin: o.origin, video: o.video, enc: o.enc}
+				g.emit(op{code: 'G', o: k, d: d})
+				g.objs[d] = &gobj{kind: 's', alias: o.alias, origin: o.origin, codec: o.codec, enc: o.enc}
 			case 5, 6:
-				if o.clear && !o.enc && inplaceOK() {
+				if o.role != "full" || o.codec == "" || !g.inplaceOK(o) {
+					continue
+				}
+				if !o.enc {
 					code := byte('C')
 					if rng.Bool() {
 						code = 'c'
 					}
-					noteUnsafe(code)
-					prog = append(prog, op{code: code, o: k})
-					o.enc, o.clear = true, false
-				} else if o.enc && inplaceOK() {
-					noteUnsafe('X')
-					prog = append(prog, op{code: 'X', o: k})
-					o.enc, o.clear = false, true
+					g.noteInplace(o, code)
+					g.emit(op{code: code, o: k})
+					o.enc = true
+				} else {
+					g.noteInplace(o, 'X')
+					g.emit(op{code: 'X', o: k})
+					o.enc = false
+				}
+			case 7:
+				if len(g.prog)+4 <= nops+2 {
+					if rng.Intn(3) > 0 {
+						g.decryptPipeline()
+					} else {
+						g.encryptPipeline()
+					}
 				}
 			default:
-				decode(pickInput(), rng.Bool())
+				g.decode(anyInput(), rng.Bool(), g.newID())
 			}
 		case 'b':
 			if o.origin < 0 { // Info text: not decodable
-				decode(pickInput(), rng.Bool())
+				g.decode(anyInput(), rng.Bool(), g.newID())
 				continue
 			}
-			d := newID()
+			d := g.newID()
 			if d == k {
 				continue
 			}
 			code := byte('D')
-			alias := -1
 			if rng.Bool() {
 				code = 'R' // SliceReader over the goroutine's own buffer: aliasing, but not of a shared input
 			}
-			prog = append(prog, op{code: code, src: fmt.Sprintf("o%d", k), d: d})
-			g := *o
-			g.kind, g.alias = 'f', alias
-			objs[d] = &g
+			g.emit(op{code: code, src: fmt.Sprintf("o%d", k), d: d})
+			f := *o
+			f.kind, f.alias = 'f', -1
+			g.objs[d] = &f
 		case 's':
-			if !o.video || !inplaceOK() {
-				decode(pickInput(), rng.Bool())
+			if !o.video() || !g.inplaceOK(o) {
+				g.decode(anyInput(), rng.Bool(), g.newID())
 				continue
 			}
-			if !o.annexb {
-				noteUnsafe('B')
-				prog = append(prog, op{code: 'B', o: k})
-				o.annexb = true
-			} else {
-				noteUnsafe('N')
-				prog = append(prog, op{code: 'N', o: k})
-				o.annexb = false
+			code := byte('B')
+			if o.annexb {
+				code = 'N'
 			}
+			g.noteInplace(o, code)
+			g.emit(op{code: code, o: k})
+			o.annexb = !o.annexb
+		case 'k':
+			// reuse the decrypt info on another media input of the same codec
+			med := g.pickBytes(func(in inputInfo) bool { return in.role == "media" && in.enc && in.codec == o.codec })
+			sr := rng.Bool() && g.mode != modeSafe
+			m := g.decode(med, sr, g.fresh())
+			g.noteInplace(g.objs[m], 'Y')
+			g.emit(op{code: 'Y', o: m, src: fmt.Sprintf("o%d", k)})
+			g.objs[m].enc = false
+		case 'p':
+			med := g.pickBytes(func(in inputInfo) bool { return in.role == "media" && !in.enc && in.codec == o.codec })
+			sr := rng.Bool() && g.mode != modeSafe
+			m := g.decode(med, sr, g.fresh())
+			g.noteInplace(g.objs[m], 'F')
+			g.emit(op{code: 'F', o: m, d: k})
+			g.objs[m].enc = true
 		}
 	}
-	return prog, firstUnsafe, mutated
+	return g.prog, g.firstUnsafe, g.mutated
 }
 
-// inputsRead lists the shared inputs a program decodes.
+// inputsRead lists the shared inputs a program uses (decoded byte slices and shared DecryptInfos).
 func inputsRead(p []op) map[int]bool {
 	m := map[int]bool{}
 	for _, o := range p {
-		if (o.code == 'D' || o.code == 'R') && len(o.src) > 1 && o.src[0] == 'i' {
+		if (o.code == 'D' || o.code == 'R' || o.code == 'Y') && len(o.src) > 1 && o.src[0] == 'i' {
 			var k int
 			fmt.Sscanf(o.src[1:], "%d", &k)
 			m[k] = true
